@@ -22,7 +22,7 @@ func (w *World) handles() []handle {
 		hs = append(hs, handle{"orig", w.St, w.M.Cur})
 	}
 	for i, sn := range w.Snaps {
-		if !sn.Closed {
+		if !sn.Closed && !sn.Reverted {
 			hs = append(hs, handle{fmt.Sprintf("s%d", i), sn.St, sn.Exp.Cur})
 		}
 	}
